@@ -87,7 +87,9 @@ def exotic(rng, depth=0):
     if r == 0:
         return (1, 2, 'three'), [1, 2, 'three']
     if r == 1:
-        v = set(rng.pick([[1, 2, 3], ['a'], []]))
+        # sets, incl. members that cannot be ordered against each other
+        v = rng.pick([set([1, 2, 3]), set(['a']), set(), set([1, 'a']), set([None, 'x', 'y']), frozenset([(1, 2), 7]),
+                      {'inner': set([2.5, 'b', None])}, [set([1, 'z']), 3]])
         return v, None
     if r == 2:
         d = datetime.datetime(2020, 1, 2, 3, 4, 5)
